@@ -13,7 +13,7 @@ from vmon.wsgi import make_environ, call_app, RecStream
 RULE = ('grid cells (size, max_body_size L, max_memfile_size B, framing, content kind), sizes in {0,1,L-1,L,L+1,L+B-1,L+B,L+B+1,10L} (relative to B '
         'when there is no limit), L in {None,0,1,17,100,4096}, B in {1,16,100,4096}; each cell is one request through Ombott.__call__ whose handler '
         'reads the body the way the content kind asks. Non-trivial = the size is within one buffer of a limit or above it; distinct = distinct cell.')
-REQUIRED = ['multipart_text_over_threshold_in_several_fields', 'rejected_413', 'accepted_within_limit', 'spooled_to_disk', 'kept_in_memory', 'consumption_checked', 'chunked_cells', 'cl_cells',
+REQUIRED = ['chunked_with_misleading_content_length', 'multipart_text_over_threshold_in_several_fields', 'rejected_413', 'accepted_within_limit', 'spooled_to_disk', 'kept_in_memory', 'consumption_checked', 'chunked_cells', 'cl_cells',
             'urlencoded_refused_over_threshold', 'multipart_text_refused_over_threshold', 'multipart_file_over_threshold_delivered',
             'content_compared', 'exactly_at_limit_accepted', 'one_over_limit_rejected']
 EXHAUSTIVE = {'quick': False, 'thorough': False, 'quick_note': 'the grid units enumerate the grid without L=4096/B=4096 completely; random units add seeded off-grid cells', 'thorough_note': 'the grid units enumerate the whole grid completely; random units add seeded off-grid cells'}
@@ -115,7 +115,17 @@ def cell(ctx, app, seen, S_target, L, B, framing, kind, grid=False):
     else:
         enc, table = chunk_table(body, framing)
         st = RecStream(enc)
-        env = make_environ('POST', '/raw' if kind == 'raw' else '/forms', stream=st, content_length=None, chunked=True, content_type=ctype)
+        # a chunked request may carry a Content-Length as well (chunked framing wins): one that lies on the other side of
+        # the limit must not decide anything
+        extra = None
+        sel = (S + (L or 0) + B + framing) % 3
+        if sel == 1:
+            extra = {'CONTENT_LENGTH': '3'}
+        elif sel == 2:
+            extra = {'CONTENT_LENGTH': str((L or B) * 50 + 7)}
+        if extra:
+            ctx.count('chunked_with_misleading_content_length')
+        env = make_environ('POST', '/raw' if kind == 'raw' else '/forms', stream=st, content_length=None, chunked=True, content_type=ctype, extra=extra)
         ctx.count('chunked_cells')
     seen.clear()
     r = call_app(app, env)
